@@ -58,7 +58,11 @@ class UniformWithReplacementSampler(Sampler[List[int]]):
         num_batches = self.steps
         while num_batches > 0:
             mask = (
-                torch.rand(self.num_samples, generator=self.generator)
+                # not the default dtype: draws on the float16 / bfloat16 grid would include
+                # every index with probability sample_rate rounded up to that grid
+                torch.rand(
+                    self.num_samples, generator=self.generator, dtype=torch.float32
+                )
                 < self.sample_rate
             )
             indices = mask.nonzero(as_tuple=False).reshape(-1).tolist()
@@ -150,7 +154,11 @@ class DistributedUniformWithReplacementSampler(Sampler):
         # Now, select a batch with Poisson subsampling
         for _ in range(self.num_batches):
             mask = (
-                torch.rand(self.num_samples, generator=self.generator)
+                # not the default dtype: draws on the float16 / bfloat16 grid would include
+                # every index with probability sample_rate rounded up to that grid
+                torch.rand(
+                    self.num_samples, generator=self.generator, dtype=torch.float32
+                )
                 < self.sample_rate
             )
             selected_examples = mask.nonzero(as_tuple=False).reshape(-1)
